@@ -426,6 +426,19 @@ def evaluate_texts(actual_text, expected_text, opts):
     return _verdict(readings)
 
 
+def evaluate_lines_text(actual_lines, expected_text, opts):
+    """Three-valued verdict for an actual given as a SEQUENCE of lines (list
+    or tuple handed to the string entry point) against a reference text: the
+    sequence is taken as it is (with the trailing-empty readings of
+    `evaluate`), the text under both line-splitting readings."""
+    if _whitespace_sensitive(opts):
+        return Result(UNSPEC, 'whitespace-in-substring-with-strip', [])
+    readings = []
+    for le in lines_of_text(expected_text):
+        readings.extend(_readings(list(actual_lines), le, opts))
+    return _verdict(readings)
+
+
 def pass_reasons(result):
     """For a MUST_PASS result: sorted tags of what the pass relies on (used
     by the checks to build narrow signatures)."""
